@@ -88,7 +88,7 @@ def _children(ch, prefix_len, budgets, acc):
         b = budgets.get(kind, budgets.get('*', 0))
         have = acc.get(kind, 0)
         for alt in range(1, n):
-            c = costs[alt] if costs else 1
+            c = 1 if costs is None else (costs if isinstance(costs, int) else costs[alt])
             if b is not None and have + c > b:
                 continue
             tb = budgets.get('total')
